@@ -68,6 +68,13 @@ def generate(rng, tier):
             files[os.path.join(d, nr.choice(["rustfmt.toml", ".rustfmt.toml"]))] = nr.choice(["max_width = 80\n", "tab_spaces = 2\n", 'version = "One"\n', 'version = "Two"\n'])
         return {"lane": "flagboth", "world": {"files": files}, "probe": os.path.join(d, "probe0.rs"), "key": key, "flag_value": fv,
                 "config_value": iv, "config_first": nr.chance(50), "cwd": nr.choice([".", d]), "hashseed": nr.below(1 << 32)}
+    if nr.chance(3):
+        # lane D: the dump of the defaults (and the minimal dump), printed and written to a path -- a fresh one and one
+        # that holds an older, longer file
+        return {"lane": "defaultdump", "world": {"files": {"p/probe0.rs": gen_config.PROBE, "home/.keep": "", "out/.keep": "",
+                "out/old.toml": "# " + "an older dump " * nr.range(150, 400) + "\nmax_width = 40\nhard_tabs = true\n",
+                "p/rustfmt.toml": nr.choice(["max_width = 80\n", "tab_spaces = 2\nhard_tabs = true\n", ""])}},
+                "cwd": nr.choice([".", "p"]), "hashseed": nr.below(1 << 32)}
     if rng.chance(4):
         # lane E: an option that steers the emitter, in the nearest rustfmt.toml versus the same file named with
         # --config-path: where the result goes (standard output, the file, a backup) must be the same
@@ -374,7 +381,47 @@ def _lane_flagboth(case):
     return v
 
 
+def _lane_defaultdump(case):
+    v = Verdict()
+    with core.Scratch() as sc:
+        def run(args, cwd=None):
+            r = core.run_inv(sc, {"argv": args, "cwd": cwd or case["cwd"], "env": {"HOME": "$ROOT/home"}, "hashseed": case["hashseed"]})
+            v.account(r)
+            ab = core.abnormal(r)
+            if ab:
+                v.add("C14:default-dump|abnormal|%s" % ab, "argv=%s status=%s" % (args, r.status()))
+            return r
+        for what, extra in (("default", []), ("minimal", ["--config-path", "$ROOT/p/rustfmt.toml"])):
+            sc.fresh_world(case["world"])
+            r0 = run(["--print-config", what] + extra)
+            if r0.exit != 0:
+                v.probe("dump-rejected")
+                continue
+            S = r0.stdout
+            for target in ("out/fresh.toml", "out/old.toml"):
+                rt = run(["--print-config", what, "$ROOT/" + target] + extra)
+                got = core.read_rel(sc.root, target)
+                if rt.exit == 0 and got != S:
+                    v.add("C14:dump-file-vs-printed|%s|%s" % (what, "over-existing-file" if target.endswith("old.toml") else "fresh-path"),
+                          "--print-config %s PATH wrote %d bytes, the same dump on standard output is %d bytes (PATH %s)" % (
+                              what, len(got or b""), len(S), "held an older, longer file" if target.endswith("old.toml") else "did not exist"))
+            if what == "default":
+                # the dump re-parses to the configuration it describes: the defaults
+                with open(os.path.join(sc.root, "out", "printed.toml"), "wb") as f:
+                    f.write(S)
+                ra = run(["--print-config", "current", "$ROOT/out/x.rs", "--config-path", "$ROOT/out/printed.toml"])
+                rb = run(["--print-config", "current", "$ROOT/out/x.rs", "--config-path", "$ROOT/out/.keep"])
+                if ra.exit == 0 and rb.exit == 0 and ra.stdout != rb.stdout:
+                    da, db = parse_dump(core.text_of(ra.stdout)), parse_dump(core.text_of(rb.stdout))
+                    v.add("C14:default-dump-not-the-defaults", "reloading the printed defaults changes %s" % sorted(k for k in set(da) | set(db) if da.get(k) != db.get(k))[:6])
+        v.probe("default-dump")
+        v.sample = {"lane": "defaultdump"}
+    return v
+
+
 def execute(case):
+    if case.get("lane") == "defaultdump":
+        return _lane_defaultdump(case)
     if case.get("lane") == "emitter":
         return _lane_emitter(case)
     if case.get("lane") == "flagboth":
@@ -590,7 +637,7 @@ def execute(case):
 
 
 def shrinks(case):
-    if case.get("lane") in ("emitter", "flagboth"):
+    if case.get("lane") in ("emitter", "flagboth", "defaultdump"):
         return
     cli = case["cli"]
     for k in list(cli["config"]):
